@@ -493,7 +493,7 @@ func runC01(ctx Ctx) int {
 	if run.Tier == "thorough" {
 		maxSessions, maxDepth, bound3 = 3, 6, 3
 	}
-	deadline := devx.Deadline(map[string]time.Duration{"quick": 5 * time.Minute, "thorough": 40 * time.Minute}[run.Tier])
+	deadline := devx.Deadline(map[string]time.Duration{"quick": 5 * time.Minute, "thorough": 15 * time.Minute}[run.Tier])
 	// ---- BFS
 	type node struct{ hist []c01Event }
 	seen := map[string]bool{}
@@ -637,7 +637,7 @@ func runC01(ctx Ctx) int {
 		i, bound := j.idx, j.bound
 		secs := 120
 		if run.Tier == "thorough" {
-			secs = 1200
+			secs = 300
 		}
 		cmd := exec.Command(exe, "C01", "--worker", strconv.Itoa(i), strconv.Itoa(bound), strconv.Itoa(secs))
 		fineEnv := "VERIF_SCHED_FINE=0"
